@@ -292,36 +292,48 @@ func c10Sign(r *core.Run) {
 			r.Failf("C10.timestamp-silently-omitted", c.Mod, "the key asks for a timestamp, signing succeeded, but no timestamp is attached: %s", desc)
 			continue
 		}
-		// the attached token must be byte-identical (by its TSA signature value) to an acceptable reply for THIS signature value
+		// the attached token must be byte-identical (by its TSA signature value) to an acceptable reply for THIS signature value.
+		// Several replies can carry the same bytes (deterministic RSA, signing time of one-second resolution): any one of them may vouch.
 		var match *world.TSAIssued
+		verdict := "unknown"
 		for i := range ledger {
-			if ledger[i].SigValue != nil && bytes.Equal(ledger[i].SigValue, ts.SignerInfo.EncryptedDigest) {
-				match = &ledger[i]
+			e := &ledger[i]
+			if e.SigValue == nil || !bytes.Equal(e.SigValue, ts.SignerInfo.EncryptedDigest) {
+				continue
 			}
-		}
-		var wantImprint []byte
-		if sigValue == nil {
-			// no signature value available: the token must then stem from
-			// this very request's replies
-			if match != nil {
-				wantImprint = match.Imprint
-				if len(mine) > 0 && !(match.At >= rq.Start && match.At <= rq.End) {
-					wantImprint = []byte("issued-for-another-request")
+			v := "ok"
+			switch {
+			case !e.Acceptable:
+				v = "unacceptable"
+			case sigValue == nil:
+				// no signature value available from the verifier (XML formats): the token must stem from this very request, or from the cache
+				if len(mine) > 0 && !(e.At >= rq.Start && e.At <= rq.End) {
+					v = "other-signature"
+				}
+			case rq.Legacy:
+				if !bytes.Equal(e.Imprint, sigValue) {
+					v = "other-signature"
+				}
+			default:
+				hh := ts.Hash.New()
+				hh.Write(sigValue)
+				if !bytes.Equal(e.Imprint, hh.Sum(nil)) {
+					v = "other-signature"
 				}
 			}
-		} else if rq.Legacy {
-			wantImprint = sigValue
-		} else {
-			hh := ts.Hash.New()
-			hh.Write(sigValue)
-			wantImprint = hh.Sum(nil)
+			if match == nil || v == "ok" {
+				match, verdict = e, v
+			}
+			if v == "ok" {
+				break
+			}
 		}
 		switch {
 		case match == nil:
 			r.Failf("C10.unknown-token-attached", c.Mod, "the attached timestamp token was never issued by any authority: %s", desc)
-		case !match.Acceptable:
+		case verdict == "unacceptable":
 			r.Failf("C10.bad-token-attached", match.Kind, "the attached token comes from a reply that must not be accepted (%s from %s): %s", match.Kind, match.URL, desc)
-		case !bytes.Equal(match.Imprint, wantImprint):
+		case verdict == "other-signature":
 			r.Failf("C10.bad-token-attached", "other-signature", "the attached token was issued for a different signature value: %s", desc)
 		default:
 			if len(mine) == 0 {
